@@ -28,6 +28,10 @@ type C08Case struct {
 	Method string `json:"method,omitempty"`
 	I      int    `json:"i,omitempty"`
 	J      int    `json:"j,omitempty"`
+	// Traverse only: 0 = called on the stack itself; 1..8 = the stack sits at position 0 of a holder with its OWN index
+	// options (bit 0 of Holder-1: negative, bit 1: forward; bit 2: held as the expression of a Condition) and is
+	// addressed as holder.Traverse(0, I): the second index is resolved with the options of the stack it indexes
+	Holder int `json:"holder,omitempty"`
 
 	// values
 	Recv  string    `json:"recv,omitempty"` // stack | cond
@@ -207,9 +211,20 @@ func runC08Grid(c C08Case) (st Stats, err error) {
 		case "Index", "Traverse":
 			var got any
 			var ok bool
-			if c.Method == "Index" {
+			switch {
+			case c.Method == "Index":
 				got, ok = s.Index(c.I)
-			} else {
+			case c.Holder > 0:
+				h := stackage.And()
+				if (c.Holder-1)&4 != 0 {
+					h.Push(stackage.Cond("holder", stackage.Eq, s))
+				} else {
+					h.Push(s)
+				}
+				h.SetNegativeIndices((c.Holder-1)&1 != 0)
+				h.SetForwardIndices((c.Holder-1)&2 != 0)
+				got, ok = h.Traverse(0, c.I)
+			default:
 				got, ok = s.Traverse(c.I)
 			}
 			if addressed {
@@ -323,7 +338,10 @@ func runC08Grid(c C08Case) (st Stats, err error) {
 	st.NonTrivial = cls != "in-range" || (c.Method == "Swap" || c.Method == "Less") && idxClass(c.J, L) != "in-range"
 	st.Class("grid:" + c.Method)
 	st.Class("idx:" + cls)
-	st.Sig = fmt.Sprintf("grid|%s|%s|%s|%d|%d|%v%v|%d|%d", c.Method, cls, idxClass(c.J, L), c.Len, c.NilAt, c.Neg, c.Fwd, c.Cap, c.I)
+	st.Sig = fmt.Sprintf("grid|%s|%s|%s|%d|%d|%v%v|%d|%d|%d", c.Method, cls, idxClass(c.J, L), c.Len, c.NilAt, c.Neg, c.Fwd, c.Cap, c.I, c.Holder)
+	if c.Holder > 0 {
+		st.Class("grid:Traverse-through-holder-with-own-index-options")
+	}
 	return st, nil
 }
 
@@ -530,6 +548,12 @@ func enumC08(tier Tier, yield func(C08Case)) {
 							c := base
 							c.Method, c.I = m.Name, i
 							yield(c)
+							if m.Name == "Traverse" {
+								for h := 1; h <= 8; h++ {
+									c.Holder = h
+									yield(c)
+								}
+							}
 						}
 					}
 				}
@@ -605,6 +629,9 @@ func genC08(t *rapid.T, tier Tier) C08Case {
 			return rapid.IntRange(-L-2, L+2).Draw(t, label)
 		}
 		c.I, c.J = pick("i"), pick("j")
+		if c.Method == "Traverse" {
+			c.Holder = rapid.IntRange(0, 8).Draw(t, "holder")
+		}
 		return c
 	}
 	c := C08Case{Mode: "values", Recv: "stack", Kind: rapid.SampledFrom(stackKinds).Draw(t, "kind")}
